@@ -348,7 +348,10 @@ class LiteralMethod(DeserializationMethod):
             if self.coercer is not None:
                 for cls in self.types:
                     try:
-                        return self.value_map[self.coercer(cls, data)]
+                        coerced = self.coercer(cls, data)
+                        # True is an instance of int but must not match 1
+                        if coerced.__class__ in self.types:
+                            return self.value_map[coerced]
                     except (KeyError, ValidationError):
                         pass
             raise ValidationError(format_error(self.error, data))
